@@ -63,7 +63,8 @@ QP = Q + "TLSMemoryBIOProtocol."
 
 # methods the rules are written against; any other private method of these classes is a helper introduced later and is analysed as
 # if inlined at its call sites (sa.props._lib_d.Inliner / Views)
-KNOWN = {'protocols/tls.py': {'BufferingTLSTransport': ['__init__', 'loseConnection', 'writeSequence'],
+KNOWN = {'protocols/tls.py': {'<module>': ['_representsEOF', '_get_default_clock'],
+                      'BufferingTLSTransport': ['__init__', 'loseConnection', 'writeSequence'],
                       'TLSMemoryBIOProtocol': ['__init__', '_bufferedWrite', '_checkHandshakeStatus', '_flushReceiveBIO', '_flushSendBIO', '_shutdownTLS', '_tlsShutdownFinished',
                                                '_unbufferPendingWrites', '_write', 'abortConnection', 'connectionLost', 'dataReceived', 'failVerification', 'getHandle',
                                                'getPeerCertificate', 'loseConnection', 'makeConnection', 'negotiatedProtocol', 'registerProducer', 'unregisterProducer', 'write',
